@@ -15,7 +15,7 @@
      finish_empty_rejected, parse_total, uvarint round trip, read_gt_least,
      iter_yields_abs, seek_iter_yields_above.
    See the end of the file for what is not proved. *)
-From GV Require Import Lib.Tactics Lib.Uvarint Lib.UvarintProofs PathDB.Index PathDB.IndexProofs PathDB.IndexReaderProofs.
+From GV Require Import Lib.Tactics Lib.Uvarint Lib.UvarintProofs PathDB.Index PathDB.IndexProofs PathDB.IndexReaderProofs PathDB.IndexMultiProofs.
 Local Open Scope N_scope.
 
 (* LEB128: decoding an encoding gives the value and its length back, whatever follows *)
@@ -125,6 +125,68 @@ Theorem C19_seek_iter_yields_above : forall b q fuel,
     end.
 Proof. exact seek_iter_yields_above. Qed.
 Print Assumptions C19_seek_iter_yields_above.
+
+(* ---- the multi-block layer (indexWriter over a store) ----
+   [iok bl]: bl is a list of reachable non-empty blocks, block number i carrying
+   id i, fewer than 2^32 of them, all their ids together strictly ascending.
+   [stored db bl]: the store's metadata is the descriptors of bl and it holds
+   finish() of every block under its id.  [iabs bl] = all ids, block by block. *)
+
+(* the metadata written for any such block list parses back to its descriptors *)
+Theorem C19_index_meta_round_trip : forall ds,
+  ds <> [] -> descs_ok 0 ds -> N.of_nat (length ds) <= 4294967296 ->
+  parse_index (flat_map desc_encode ds) = Ok ds.
+Proof. exact parse_index_round. Qed.
+Print Assumptions C19_index_meta_round_trip.
+
+(* reading a stored index back (metadata, then every block) gives the
+   concatenation of the blocks' ids *)
+Theorem C19_index_stored_abs : forall db bl,
+  iok bl -> stored db bl -> db_abs db = Ok (iabs bl).
+Proof. exact db_abs_spec. Qed.
+Print Assumptions C19_index_stored_abs.
+
+(* indexWriter.append, with rotation to a new block when the live one is full:
+   fails exactly when id <= last, otherwise adds exactly the id at the end and
+   keeps the invariant [iwrepr] (descriptor list, frozen writers, live writer) *)
+Theorem C19_index_append : forall w pre id,
+  iwrepr w pre -> id < two64 -> N.of_nat (length (pre ++ iw_frozen w)) + 2 < 4294967296 ->
+  (id <= last (iw_abs w pre) 0 -> iw_append w id = Err EAppendOrder) /\
+  (last (iw_abs w pre) 0 < id ->
+   exists w', iw_append w id = Ok w' /\ iwrepr w' pre /\ iw_abs w' pre = iw_abs w pre ++ [id] /\
+              (length (pre ++ iw_frozen w') <= S (length (pre ++ iw_frozen w)))%nat).
+Proof. exact iw_append_spec. Qed.
+Print Assumptions C19_index_append.
+
+(* a whole writer session on ANY stored index (so, by iteration, any sequence of
+   sessions): newIndexWriter with a limit that trims nothing, appends of a
+   non-empty ascending run of uint64 ids above the last stored id, finish: the
+   new store again satisfies [stored]/[iok] and reads back as old ids ++ new ids *)
+Theorem C19_index_writer_session : forall db bl limit ids,
+  iok bl -> stored db bl -> last (iabs bl) 0 <= limit ->
+  ids <> [] -> asc (last (iabs bl) 0) ids ->
+  N.of_nat (length bl) + N.of_nat (length ids) + 2 < 4294967296 ->
+  exists w w' bl',
+    new_index_writer db limit = Ok w /\ iw_appends w ids = Ok w' /\
+    stored (iw_finish w' db) bl' /\ iok bl' /\ iabs bl' = iabs bl ++ ids /\
+    db_abs (iw_finish w' db) = Ok (iabs bl ++ ids).
+Proof. exact writer_session. Qed.
+Print Assumptions C19_index_writer_session.
+
+(* NOT PROVED (modelled, compared with the implementation on every run, checked
+   by the Go-side sorted-slice oracle):
+     index_pop_partial      : indexDeleter.pop across blocks (dropping an emptied
+                              block, reopening the previous one) and its finish:
+                              stored ids = removelast; only the single-block pop
+                              (C19_pop_abs) and the reopen step (C19_finish_parse) are proved
+     index_read_gt_partial  : indexReader.readGreaterThan / indexIterator over several
+                              blocks = least id above q / all ids above q; proved for one
+                              block (C19_read_gt_least, C19_seek_iter_yields_above)
+     limit trimming         : newBlockWriter / newIndexWriter / newIndexDeleter with a
+                              limit below the last id keep exactly the ids <= limit
+     reader totality        : iterators over corrupted (parsed) blocks never panic
+   NOT MODELLED: per-element extensions, bitmaps, extension filters
+   (filter_no_drop), the tail pruner (prune_tail_abs). *)
 
 (* Historical witness (repaired in /repo commit 2876db98): before the repair
    scanSection did not look at binary.Uvarint's byte count ([scan_loop false]).
